@@ -243,8 +243,13 @@ func main() {
 	}
 	rep.Exhaustive = true
 	defer core.Cleanup()
+	if os.Getenv("C08_DIRECTED") == "primaryfile" { // development aid
+		primaryFile(rep)
+		rep.Finish()
+	}
 	if os.Getenv("C08_DIRECTED") == "clusterid" { // development aid: one stage only (never commit its evidence)
 		clusterIDPersist(rep)
+	primaryFile(rep)
 		rep.Finish()
 	}
 
@@ -358,6 +363,7 @@ func main() {
 	streamEndsWithTenure(rep)
 	handoffToBusySubscriber(rep)
 	clusterIDPersist(rep)
+	primaryFile(rep)
 
 	nontriv := 0
 	for _, o := range outs {
